@@ -17,6 +17,14 @@ FLOAT_TYPES = {"float": 32, "double": 64}
 LENS = (2, 3, 4)
 
 
+def yaml_text2() -> str:
+    """a second definition set that reuses the class names of the first with different layouts"""
+    t = yaml_text()
+    t = t.replace("      x: int16\n      y: int16", "      x: int16\n      y: int16\n      z: int32")
+    t = t.replace("      a: int32\n      inner: VINNER\n      b: double", "      a: int32\n      b: double\n      inner: VINNER\n      extra: uint16[2]", 1)
+    return t
+
+
 def yaml_text() -> str:
     lines = ["compiler_options:", "  IMPORT_COREDEFS: false", "", "struct_defs:",
              "  VINNER:", "    fields:", "      x: int16", "      y: int16",
@@ -102,6 +110,23 @@ def load():
         finally:
             core.rmtree(d)
     return _MOD
+
+
+_MOD2 = None
+
+
+def load2():
+    """the second definition set (same class names, other layouts); loaded after the first"""
+    global _MOD2
+    load()
+    if _MOD2 is None:
+        d = core.scratch_dir("valx2")
+        try:
+            compile_defs(yaml_text2(), "valx_defs2", d, python=True)
+            _MOD2 = import_generated(os.path.join(d, "valx_defs2.py"), f"valx_defs2_{os.getpid()}")
+        finally:
+            core.rmtree(d)
+    return _MOD2
 
 
 def int_bounds(t: str) -> Tuple[int, int]:
